@@ -1,7 +1,7 @@
 """C11 - Symbolic expression simplification and bounds are sound.
 
 spec -> impl: TLC (specs/shape/MC_SymExprGen) enumerates expression trees - every tree of depth <= 1
-over the full leaf set, (thorough) every tree of depth <= 2 over a reduced leaf set, pseudo-random trees
+over the full leaf set, (thorough) every tree of depth <= 2 over the reduced leaf set {-2,0,1,x,z}, pseudo-random trees
 of depth <= 2 / <= 3 - the harness `vh-shape symexpr` builds each as a real SymExpr and records what
 simplify(), range(), is_positive() return for every subexpression; specs/shape/Trace_SymExpr evaluates
 original and simplified trees under ALL symbol assignments in -3..4 (>= 0 for positive symbols) with the
@@ -34,7 +34,7 @@ def generate(ctx):
     if ctx.quick:
         plan += [("r2", "rand", 2, 600, "full", 1), ("r3", "rand", 3, 1800, "full", 1)]
     else:
-        plan += [("d2_small", "all", 2, 0, "small", 4),
+        plan += [("d2_mid", "all", 2, 0, "mid", 4),
                  ("r2", "rand", 2, 40000, "full", 1), ("r3", "rand", 3, 60000, "full", 1)]
     out = []
 
@@ -59,7 +59,7 @@ def generate(ctx):
 def validate(ctx, prefix, shards):
     """Run the trace spec on every shard (in parallel) and merge the results."""
     def one(k):
-        return ctx.tlc_trace(TRACE_SPEC, TRACE_CFG, "%s.%d.ndjson" % (prefix, k), timeout=6000, heap="3g", env=JENV)
+        return ctx.tlc_trace(TRACE_SPEC, TRACE_CFG, "%s.%d.ndjson" % (prefix, k), timeout=6000, heap="3g" if ctx.quick else "6g", env=JENV)
 
     results = []
     with concurrent.futures.ThreadPoolExecutor(max_workers=4) as ex:
@@ -137,7 +137,7 @@ def finish(ctx, prefix, shards, bad, nsig, stats, gens):
     ctx.judge(bad, "vh-shape symexpr", TRACE_SPEC, TRACE_CFG, case_lookup=lambda rec: rec.get("e"), badtotal=nsig)
     ctx.finish(
         rule="cases = expression trees generated by TLC: all trees of depth <= 1 over leaves {-2,0,1,3,i32::MAX,i32::MIN+1,"
-             "x+,y+,z} and 9 operators; thorough: all trees of depth <= 2 over leaves {-2,1,x+,z}; plus seeded pseudo-random "
+             "x+,y+,z} and 9 operators; thorough: all trees of depth <= 2 over leaves {-2,0,1,x+,z}; plus seeded pseudo-random "
              "trees of depth <= 2 and <= 3 over the full leaf set; each judged by TLC under every assignment of its symbols in "
              "-3..4 (0..4 for positive symbols). distinct = distinct trees; non-trivial = has an operator and a symbol",
         assumptions=["harness profile = release build without overflow checks (as rten ships); panics are recorded, not judged",
